@@ -4,6 +4,7 @@ import (
 	"bytes"
 	"fmt"
 	"strconv"
+	"unicode/utf8"
 )
 
 type regExpParser struct {
@@ -361,8 +362,9 @@ func (p *regExpParser) scanEscape(inClass bool) {
 	default:
 		// $ is an identifier character, so we have to have
 		// a special case for it here
-		if p.chr == '$' || !isIdentifierPart(p.chr) {
-			// A non-identifier character needs escaping
+		if p.chr == '$' || (p.chr < utf8.RuneSelf && !isIdentifierPart(p.chr)) {
+			// A non-identifier character needs escaping; outside ASCII
+			// there is nothing to escape and re2 refuses the backslash.
 			err := p.goRegexp.WriteByte('\\')
 			if err != nil {
 				p.errors = append(p.errors, err)
